@@ -20,3 +20,25 @@ Theorem C17_info_prints_by_default :
   /\ prints default_level Warn = false /\ prints default_level Debug = false /\ prints default_level Trace = false.
 Proof. exact info_prints_by_default. Qed.
 Print Assumptions C17_info_prints_by_default.
+
+(* the gate: LOG_CLIENT_IP enables client-address logging only when strconv.ParseBool accepts it as
+   true (the rule of cmd/application/main.go); every other value — unset, false spellings, and
+   anything that does not parse — is "disabled" *)
+Theorem C17_gate_fail_closed : forall v, gate v = true <-> v = EVTrue.
+Proof. exact gate_fail_closed. Qed.
+Print Assumptions C17_gate_fail_closed.
+
+(* every site's rendering uses that one gate function and nothing else of the setting *)
+Theorem C17_one_gate_for_all_sites :
+  forall cfg s ev1 ev2,
+    gate (env_value ev1) = gate (env_value ev2) ->
+    (forall i, err_of ev1 i = err_of ev2 i) -> (forall i, digest_of ev1 i = digest_of ev2 i) ->
+    (forall i, const_of ev1 i = const_of ev2 i) ->
+    output cfg s ev1 = output cfg s ev2.
+Proof. exact output_one_gate. Qed.
+Print Assumptions C17_one_gate_for_all_sites.
+
+Theorem C17_disabled_is_every_non_true_value :
+  forall s ev, safe_site s = true -> env_value ev <> EVTrue -> has_addr (output default_level s ev) = false.
+Proof. exact disabled_means_every_non_true_value. Qed.
+Print Assumptions C17_disabled_is_every_non_true_value.
